@@ -26,6 +26,22 @@ func (s *Session[K]) After(r *rng.R) {
 		return
 	}
 	c := s.Cfg
+	if c.Has(MMap) {
+		// stored keys must stay retrievable after every structural change,
+		// not only the key just written
+		if s.M.Len() <= 64 {
+			s.SearchAll()
+		} else {
+			for i := 0; i < 8 && !s.Dead; i++ {
+				if st, ok := s.pickStored(r); ok {
+					s.Search(st)
+				}
+			}
+		}
+		if s.Dead {
+			return
+		}
+	}
 	if c.Has(MSize) {
 		s.CheckSize(true)
 	}
